@@ -141,7 +141,7 @@ def make_lctx(run, fresh=True):
     on pydsdl type equality: another property's business); the others share one per configuration."""
     from nunavut.lang import LanguageContextBuilder, Language
 
-    key = (run["lang"], run.get("ext"), run.get("stem"))
+    key = (run["lang"], run.get("ext"), run.get("stem"), bool(run.get("nostrop")))
     if not fresh and key in LCTX_CACHE:
         return LCTX_CACHE[key]
     lctx = _make_lctx(run, LanguageContextBuilder, Language)
@@ -156,6 +156,8 @@ def _make_lctx(run, LanguageContextBuilder, Language):
         b.set_target_language_extension(run["ext"])
     if run.get("stem") is not None:
         b.set_target_language_configuration_override(Language.WKCV_NAMESPACE_FILE_STEM, run["stem"])
+    if run.get("nostrop"):  # `enable_stropping: false`: judged by the spelling-independent clauses only (NamespaceTree!Lax)
+        b.set_target_language_configuration_override(Language.WKCV_ENABLE_STROPPING, False)
     return b.create()
 
 
@@ -301,6 +303,8 @@ def do_run(base, job, jdir, dsdl_root, by_key, run):
            "strop": strop, "ext": cps(ext), "nodes": [], "pobs": True, "root": 0, "walk_types": [], "walk_ns": [], "walk_any": [], "find": [],
            "generated": False, "outdir": pcomps(relcomps(true_out, sand, sand)), "created": [], "other": [], "refs": [],
            "given": pcomps(pathlib.PurePath(spelled).parts), "denote": [], "slisted": []}
+    if run.get("nostrop"):
+        rec["lax"] = True
     obs = {"root": None, "nodes": [], "tpaths": [[] for _ in types], "nfiles": None, "as_given": None}
     gen_mode = run.get("gen", "none")
     gen_ns_req = run.get("gen_ns")
@@ -968,6 +972,10 @@ def run(ctx):
         if not job["types"]:
             continue
         rid = add_runs(rng, job, rid, LANGS, 1 if k % 4 else 2, ctx.quick)
+        if any(t["deps"] for t in job["types"]) or k % 4 == 0:  # stropping switched off: generated path = referenced path must still hold
+            job["runs"].append({"rid": rid, "order": list(range(len(job["types"]))), "lang": ("c", "cpp")[k % 2], "ext": None, "stem": None,
+                                "spell": SPELLINGS[0], "gen": "builtin", "gen_ns": None, "support": False, "xref": True, "via": "api", "nostrop": True})
+            rid += 1
         rjobs.append(job)
     # directed: the empty type set (support-only) for every language x every spelling x API / CLI, over a root namespace directory that is
     # empty and over one that holds definitions which are not passed on
@@ -1104,7 +1112,10 @@ def finish_cov(ctx):
         "file-system observation is a recursive listing of a sandbox directory that encloses the output directory, before and after the run",
     ]
     ctx.not_exercised("html has no include/import concept: the referenced-vs-generated clause is exercised for c, cpp and py only (links are C20)")
-    ctx.not_exercised("configurations with enable_stropping=false; the empty extension override (a type file could collide with a namespace directory of "
+    ctx.not_exercised("enable_stropping=false for py (the built-in Python templates raise TypeError \"object of type 'Field' has no len()\" with stropping "
+                      "off on the unchanged tree: nothing is generated, nothing to judge) and for html; for c and cpp such runs are judged by the "
+                      "spelling-independent clauses only (NamespaceTree!Lax: not tree.path_shape, not tree.as_given)")
+    ctx.not_exercised("the spelling of namespace folders with enable_stropping=false; the empty extension override (a type file could collide with a namespace directory of "
                       "the same name); extension overrides without a leading dot given directly to the API (the CLI normalises them)")
 
 
